@@ -335,3 +335,21 @@ func ObserveCase(id int, c wire.Case) (wire.ExecRec, error) {
 	s := p.Observe()
 	return wire.ExecRec{ID: id, Case: c, V: v, S: s}, nil
 }
+
+// Assemble builds a Prepared from parts that may be shared between calls (the
+// C19 driver shares Path objects, documents and variable maps on purpose).
+func Assemble(p *path.Path, doc any, vars exec.Vars, useTZ bool, zone string, silent bool) (*Prepared, error) {
+	loc, err := Zone(zone)
+	if err != nil {
+		return nil, err
+	}
+	pr := &Prepared{Path: p, Doc: doc, Vars: vars, useTZ: useTZ, Base: types.ContextWithTZ(context.Background(), loc)}
+	pr.SetSilent(silent)
+	return pr, nil
+}
+
+// Containers exposes the identity set of the containers in x.
+func Containers(x any, set map[uintptr]bool) { containers(x, set) }
+
+// DeepCopy exposes the deep copy used for purity checks.
+func DeepCopy(x any) any { return deepCopy(x) }
